@@ -237,6 +237,32 @@ type PtrArr struct {
 	U *U32Arr  `serix:""`
 }
 
+// byte arrays by value, behind pointers, as slice / array elements, map values and interface implementations
+type (
+	Key4  [4]byte // no object code
+	Hash6 [6]byte // implements Shape, object code uint8(3)
+)
+
+func (Hash6) shape() {}
+
+type ByteArrs struct {
+	V  Key4             `serix:""`
+	W  [5]byte          `serix:""`
+	I  ID8              `serix:""`
+	P  *Key4            `serix:",optional"`
+	Q  *[3]byte         `serix:""`
+	L  []Key4           `serix:",lenPrefix=uint8"`
+	LI []ID8            `serix:",lenPrefix=uint8"`
+	LP []*Key4          `serix:",lenPrefix=uint8"`
+	A  [2]Key4          `serix:",lenPrefix=uint8"`
+	M  map[NStr]Key4    `serix:",lenPrefix=uint8"`
+	MI map[NStr]ID8     `serix:",lenPrefix=uint8"`
+	MA map[NStr][2]byte `serix:",lenPrefix=uint8"`
+	S  Shape            `serix:""`
+	H  Hash6            `serix:""`
+	SL []Shape          `serix:",lenPrefix=uint8"`
+}
+
 type Outer struct {
 	P  Prims       `serix:""`
 	S  Slices      `serix:""`
@@ -301,11 +327,12 @@ func newUniverse() *universe {
 	must(api.RegisterTypeSettings(Circle{}, ts.WithObjectType(uint8(0))))
 	must(api.RegisterTypeSettings(Square{}, ts.WithObjectType(uint8(1))))
 	must(api.RegisterTypeSettings(Group{}, ts.WithObjectType(uint8(2))))
-	must(api.RegisterInterfaceObjects((*Shape)(nil), (*Circle)(nil), (*Square)(nil), (*Group)(nil)))
+	must(api.RegisterTypeSettings(Hash6{}, ts.WithObjectType(uint8(3))))
+	must(api.RegisterInterfaceObjects((*Shape)(nil), (*Circle)(nil), (*Square)(nil), (*Group)(nil), (*Hash6)(nil)))
 	must(api.RegisterTypeSettings(PayA{}, ts.WithObjectType(uint32(1))))
 	must(api.RegisterTypeSettings(PayB{}, ts.WithObjectType(uint32(0x01020304))))
 	must(api.RegisterInterfaceObjects((*Payload)(nil), (*PayA)(nil), (*PayB)(nil)))
-	u.impls[reflect.TypeOf((*Shape)(nil)).Elem()] = []reflect.Type{reflect.TypeOf(&Circle{}), reflect.TypeOf(&Square{}), reflect.TypeOf(&Group{})}
+	u.impls[reflect.TypeOf((*Shape)(nil)).Elem()] = []reflect.Type{reflect.TypeOf(&Circle{}), reflect.TypeOf(&Square{}), reflect.TypeOf(&Group{}), reflect.TypeOf(&Hash6{})}
 	u.impls[reflect.TypeOf((*Payload)(nil)).Elem()] = []reflect.Type{reflect.TypeOf(&PayA{}), reflect.TypeOf(&PayB{})}
 
 	must(api.RegisterTypeSettings(ShapeList{}, ts.WithLengthPrefixType(lp8).WithArrayRules(&serix.ArrayRules{
@@ -353,6 +380,7 @@ func newUniverse() *universe {
 	add("Tree", Tree{}, true)
 	add("Coded", Coded{}, true)
 	add("PtrArr", PtrArr{}, true)
+	add("ByteArrs", ByteArrs{}, true)
 	add("Outer", Outer{}, true)
 	add("Point", Point{}, true)
 	add("Group", Group{}, true)
